@@ -27,16 +27,16 @@ var (
 )
 
 // unit is one enumerated (type, state, method) with its argument domains.
-type unit struct {
-	T      *target
-	St     state
+type seqUnit struct {
+	T      *seqTarget
+	St     seqState
 	Sec    string // vfs | idm | file | helper | iter
 	Type   string // signature "type"
 	FS     string // signature "fs" (helpers, iterators)
 	Method string
-	HK     *hkind
-	HM     *hmut
-	Doms   [][]argv
+	HK     *seqHandleKind
+	HM     *seqHandleMut
+	Doms   [][]seqArg
 	PTypes []reflect.Type
 	Variad bool
 	N      int64
@@ -44,11 +44,11 @@ type unit struct {
 
 	// custom executes helper / iterator units (reflect-based units leave it nil);
 	// it returns the outcome kind.
-	custom func(in *inst, vals []any) string
-	goCall func(args []argv) []string
+	custom func(in *seqInst, vals []any) string
+	goCall func(args []seqArg) []string
 }
 
-func (u *unit) stateClass() string {
+func (u *seqUnit) stateClass() string {
 	s := u.St.class()
 
 	if u.HM != nil && u.HM.Name != "none" {
@@ -62,9 +62,9 @@ func (u *unit) stateClass() string {
 	return s
 }
 
-func (u *unit) covKey() string { return u.Type + "." + u.Method }
+func (u *seqUnit) covKey() string { return u.Type + "." + u.Method }
 
-func (u *unit) stateKey() string {
+func (u *seqUnit) seqStateKey() string {
 	k := u.Type + "|" + u.T.OS + "|" + u.St.class()
 	if u.HK != nil {
 		k += "|" + u.HK.Name + "|" + u.HM.Name
@@ -74,8 +74,8 @@ func (u *unit) stateKey() string {
 }
 
 // tuple returns the argument tuple number j (last parameter varies fastest).
-func (u *unit) tuple(j int64) []argv {
-	out := make([]argv, len(u.Doms))
+func (u *seqUnit) tuple(j int64) []seqArg {
+	out := make([]seqArg, len(u.Doms))
 
 	for i := len(u.Doms) - 1; i >= 0; i-- {
 		n := int64(len(u.Doms[i]))
@@ -86,7 +86,7 @@ func (u *unit) tuple(j int64) []argv {
 	return out
 }
 
-func (u *unit) tupleIdx(j int64) []int {
+func (u *seqUnit) tupleIdx(j int64) []int {
 	out := make([]int, len(u.Doms))
 
 	for i := len(u.Doms) - 1; i >= 0; i-- {
@@ -98,7 +98,7 @@ func (u *unit) tupleIdx(j int64) []int {
 	return out
 }
 
-func (u *unit) finish() {
+func (u *seqUnit) finish() {
 	u.N = 1
 	for _, d := range u.Doms {
 		u.N *= int64(len(d))
@@ -109,35 +109,35 @@ func (u *unit) finish() {
 // Handles.
 
 // hkind is a kind of File handle.
-type hkind struct {
+type seqHandleKind struct {
 	Name   string
 	Open   bool // an open handle (handle mutators apply)
 	NilPtr bool // typed nil pointer: Name() may panic, as in package os
-	mk     func(in *inst) avfs.File
-	Go     func(in *inst) []string
+	mk     func(in *seqInst) avfs.File
+	Go     func(in *seqInst) []string
 }
 
 // hmut is a handle mutator applied after the handle was obtained.
-type hmut struct {
+type seqHandleMut struct {
 	Name     string
 	Show     string
 	Thorough bool
-	do       func(in *inst, f avfs.File) error
-	Go       func(in *inst) []string
+	do       func(in *seqInst, f avfs.File) error
+	Go       func(in *seqInst) []string
 }
 
-func na(why string) { panic(notApplicable{why}) }
+func notAppl(why string) { panic(notApplicable{why}) }
 
-func openOr(in *inst, p string, flag int) avfs.File {
+func openOr(in *seqInst, p string, flag int) avfs.File {
 	f, err := in.v.OpenFile(p, flag, 0)
 	if err != nil {
-		na("open failed: " + err.Error())
+		notAppl("open failed: " + err.Error())
 	}
 
 	return f
 }
 
-func openAny(in *inst, p string) (avfs.File, string) {
+func openAny(in *seqInst, p string) (avfs.File, string) {
 	if f, err := in.v.OpenFile(p, os.O_RDWR, 0); err == nil {
 		return f, "os.O_RDWR"
 	}
@@ -149,31 +149,31 @@ func goOpen(p, flag string) string {
 	return fmt.Sprintf("f, _ := vfs.OpenFile(%q, %s, 0)", p, flag)
 }
 
-func handleKinds(d *dom) []*hkind {
+func handleKinds(d *seqDom) []*seqHandleKind {
 	pf, pa, pd := d.px("/a/f"), d.px("/a"), d.px("/a/d")
 
-	anyFlag := func(in *inst) string {
+	anyFlag := func(in *seqInst) string {
 		f, fl := openAny(in, pf)
 		_ = f.Close()
 
 		return fl
 	}
 
-	return []*hkind{
+	return []*seqHandleKind{
 		{
 			Name: "nil-typed", NilPtr: true,
-			mk: func(in *inst) avfs.File {
+			mk: func(in *seqInst) avfs.File {
 				f := openOr(in, pf, os.O_RDONLY)
 				t := reflect.TypeOf(f)
 				_ = f.Close()
 
 				if t.Kind() != reflect.Ptr {
-					na("file type is not a pointer")
+					notAppl("file type is not a pointer")
 				}
 
 				return reflect.Zero(t).Interface().(avfs.File)
 			},
-			Go: func(in *inst) []string {
+			Go: func(in *seqInst) []string {
 				f := openOr(in, pf, os.O_RDONLY)
 				t := reflect.TypeOf(f).String()
 
@@ -182,148 +182,148 @@ func handleKinds(d *dom) []*hkind {
 		},
 		{
 			Name: "closed",
-			mk: func(in *inst) avfs.File {
+			mk: func(in *seqInst) avfs.File {
 				f, _ := openAny(in, pf)
 				if err := f.Close(); err != nil {
-					na("close failed")
+					notAppl("close failed")
 				}
 
 				return f
 			},
-			Go: func(in *inst) []string { return []string{goOpen(pf, anyFlag(in)), "_ = f.Close()"} },
+			Go: func(in *seqInst) []string { return []string{goOpen(pf, anyFlag(in)), "_ = f.Close()"} },
 		},
 		{
 			Name: "open-rdwr", Open: true,
-			mk: func(in *inst) avfs.File { return openOr(in, pf, os.O_RDWR) },
-			Go: func(*inst) []string { return []string{goOpen(pf, "os.O_RDWR")} },
+			mk: func(in *seqInst) avfs.File { return openOr(in, pf, os.O_RDWR) },
+			Go: func(*seqInst) []string { return []string{goOpen(pf, "os.O_RDWR")} },
 		},
 		{
 			Name: "open-rdonly", Open: true,
-			mk: func(in *inst) avfs.File { return openOr(in, pf, os.O_RDONLY) },
-			Go: func(*inst) []string { return []string{goOpen(pf, "os.O_RDONLY")} },
+			mk: func(in *seqInst) avfs.File { return openOr(in, pf, os.O_RDONLY) },
+			Go: func(*seqInst) []string { return []string{goOpen(pf, "os.O_RDONLY")} },
 		},
 		{
 			Name: "open-wronly-append", Open: true,
-			mk: func(in *inst) avfs.File { return openOr(in, pf, os.O_WRONLY|os.O_APPEND) },
-			Go: func(*inst) []string { return []string{goOpen(pf, "os.O_WRONLY|os.O_APPEND")} },
+			mk: func(in *seqInst) avfs.File { return openOr(in, pf, os.O_WRONLY|os.O_APPEND) },
+			Go: func(*seqInst) []string { return []string{goOpen(pf, "os.O_WRONLY|os.O_APPEND")} },
 		},
 		{
 			Name: "open-dir", Open: true,
-			mk: func(in *inst) avfs.File { return openOr(in, pa, os.O_RDONLY) },
-			Go: func(*inst) []string { return []string{goOpen(pa, "os.O_RDONLY")} },
+			mk: func(in *seqInst) avfs.File { return openOr(in, pa, os.O_RDONLY) },
+			Go: func(*seqInst) []string { return []string{goOpen(pa, "os.O_RDONLY")} },
 		},
 		{
 			Name: "name-removed", Open: true,
-			mk: func(in *inst) avfs.File {
+			mk: func(in *seqInst) avfs.File {
 				f, _ := openAny(in, pf)
 				if err := in.base.Remove(in.bp("/a/f")); err != nil {
-					na("remove failed")
+					notAppl("remove failed")
 				}
 
 				return f
 			},
-			Go: func(in *inst) []string {
+			Go: func(in *seqInst) []string {
 				return []string{goOpen(pf, anyFlag(in)), fmt.Sprintf("_ = base.Remove(%q)", in.bp("/a/f"))}
 			},
 		},
 		{
 			Name: "name-renamed", Open: true,
-			mk: func(in *inst) avfs.File {
+			mk: func(in *seqInst) avfs.File {
 				f, _ := openAny(in, pf)
 				if err := in.base.Rename(in.bp("/a/f"), in.bp("/a/g")); err != nil {
-					na("rename failed")
+					notAppl("rename failed")
 				}
 
 				return f
 			},
-			Go: func(in *inst) []string {
+			Go: func(in *seqInst) []string {
 				return []string{goOpen(pf, anyFlag(in)), fmt.Sprintf("_ = base.Rename(%q, %q)", in.bp("/a/f"), in.bp("/a/g"))}
 			},
 		},
 		{
 			Name: "dir-removed", Open: true,
-			mk: func(in *inst) avfs.File {
+			mk: func(in *seqInst) avfs.File {
 				f := openOr(in, pd, os.O_RDONLY)
 				if err := in.base.Remove(in.bp("/a/d")); err != nil {
-					na("remove failed")
+					notAppl("remove failed")
 				}
 
 				return f
 			},
-			Go: func(in *inst) []string {
+			Go: func(in *seqInst) []string {
 				return []string{goOpen(pd, "os.O_RDONLY"), fmt.Sprintf("_ = base.Remove(%q)", in.bp("/a/d"))}
 			},
 		},
 	}
 }
 
-var handleMutators = []*hmut{
-	{Name: "none", do: func(*inst, avfs.File) error { return nil }, Go: func(*inst) []string { return nil }},
+var handleMutators = []*seqHandleMut{
+	{Name: "none", do: func(*seqInst, avfs.File) error { return nil }, Go: func(*seqInst) []string { return nil }},
 	{
 		Name: "seek-beyond-eof", Show: "f.Seek(size+3, 0)",
-		do: func(_ *inst, f avfs.File) error { _, err := f.Seek(fileSize+3, 0); return err },
-		Go: func(*inst) []string { return []string{fmt.Sprintf("_, _ = f.Seek(%d, io.SeekStart)", fileSize+3)} },
+		do: func(_ *seqInst, f avfs.File) error { _, err := f.Seek(fileSize+3, 0); return err },
+		Go: func(*seqInst) []string { return []string{fmt.Sprintf("_, _ = f.Seek(%d, io.SeekStart)", fileSize+3)} },
 	},
 	{
 		Name: "truncated-under-offset", Show: "f.Seek(0, 2); base.Truncate(/a/f, 0)",
-		do: func(in *inst, f avfs.File) error {
+		do: func(in *seqInst, f avfs.File) error {
 			if _, err := f.Seek(0, 2); err != nil {
 				return err
 			}
 
 			return in.base.Truncate(in.bp("/a/f"), 0)
 		},
-		Go: func(in *inst) []string {
+		Go: func(in *seqInst) []string {
 			return []string{"_, _ = f.Seek(0, io.SeekEnd)", fmt.Sprintf("_ = base.Truncate(%q, 0)", in.bp("/a/f"))}
 		},
 	},
 	{
 		Name: "after-read1", Show: "f.Read(1 byte)", Thorough: true,
-		do: func(_ *inst, f avfs.File) error { _, err := f.Read(make([]byte, 1)); return err },
-		Go: func(*inst) []string { return []string{"_, _ = f.Read(make([]byte, 1))"} },
+		do: func(_ *seqInst, f avfs.File) error { _, err := f.Read(make([]byte, 1)); return err },
+		Go: func(*seqInst) []string { return []string{"_, _ = f.Read(make([]byte, 1))"} },
 	},
 	{
 		Name: "after-write2", Show: `f.Write("ab")`, Thorough: true,
-		do: func(_ *inst, f avfs.File) error { _, err := f.Write([]byte("ab")); return err },
-		Go: func(*inst) []string { return []string{`_, _ = f.Write([]byte("ab"))`} },
+		do: func(_ *seqInst, f avfs.File) error { _, err := f.Write([]byte("ab")); return err },
+		Go: func(*seqInst) []string { return []string{`_, _ = f.Write([]byte("ab"))`} },
 	},
 	{
 		Name: "after-readdir1", Show: "f.ReadDir(1)", Thorough: true,
-		do: func(_ *inst, f avfs.File) error { _, err := f.ReadDir(1); return err },
-		Go: func(*inst) []string { return []string{"_, _ = f.ReadDir(1)"} },
+		do: func(_ *seqInst, f avfs.File) error { _, err := f.ReadDir(1); return err },
+		Go: func(*seqInst) []string { return []string{"_, _ = f.ReadDir(1)"} },
 	},
 	{
 		Name: "nonadmin-after-open", Show: "vfs.SetUser(usr)", Thorough: true,
-		do: func(in *inst, _ avfs.File) error { return in.v.SetUser(in.usr) },
-		Go: func(*inst) []string { return []string{"_ = vfs.SetUser(usr)"} },
+		do: func(in *seqInst, _ avfs.File) error { return in.v.SetUser(in.usr) },
+		Go: func(*seqInst) []string { return []string{"_ = vfs.SetUser(usr)"} },
 	},
 }
 
 // errHandleKinds discovers the handles that Open, Create, OpenFile and
 // CreateTemp of t return together with an error: one kind per distinct
 // (constructor, dynamic type, nil / zero / other).
-func errHandleKinds(t *target) []*hkind {
+func errHandleKinds(t *seqTarget) []*seqHandleKind {
 	type ctor struct {
 		name string
-		call func(in *inst, p string) (avfs.File, error)
+		call func(in *seqInst, p string) (avfs.File, error)
 		gof  string
 	}
 
 	ctors := []ctor{
-		{"Open", func(in *inst, p string) (avfs.File, error) { return in.v.Open(p) }, "vfs.Open(%s)"},
-		{"Create", func(in *inst, p string) (avfs.File, error) { return in.v.Create(p) }, "vfs.Create(%s)"},
-		{"OpenFile(RDONLY)", func(in *inst, p string) (avfs.File, error) { return in.v.OpenFile(p, os.O_RDONLY, 0o644) }, "vfs.OpenFile(%s, os.O_RDONLY, 0o644)"},
-		{"OpenFile(RDWR)", func(in *inst, p string) (avfs.File, error) { return in.v.OpenFile(p, os.O_RDWR, 0o644) }, "vfs.OpenFile(%s, os.O_RDWR, 0o644)"},
-		{"OpenFile(CREATE|EXCL)", func(in *inst, p string) (avfs.File, error) {
+		{"Open", func(in *seqInst, p string) (avfs.File, error) { return in.v.Open(p) }, "vfs.Open(%s)"},
+		{"Create", func(in *seqInst, p string) (avfs.File, error) { return in.v.Create(p) }, "vfs.Create(%s)"},
+		{"OpenFile(RDONLY)", func(in *seqInst, p string) (avfs.File, error) { return in.v.OpenFile(p, os.O_RDONLY, 0o644) }, "vfs.OpenFile(%s, os.O_RDONLY, 0o644)"},
+		{"OpenFile(RDWR)", func(in *seqInst, p string) (avfs.File, error) { return in.v.OpenFile(p, os.O_RDWR, 0o644) }, "vfs.OpenFile(%s, os.O_RDWR, 0o644)"},
+		{"OpenFile(CREATE|EXCL)", func(in *seqInst, p string) (avfs.File, error) {
 			return in.v.OpenFile(p, os.O_RDWR|os.O_CREATE|os.O_EXCL, 0o644)
 		}, "vfs.OpenFile(%s, os.O_RDWR|os.O_CREATE|os.O_EXCL, 0o644)"},
-		{"OpenFile(WRONLY|TRUNC)", func(in *inst, p string) (avfs.File, error) {
+		{"OpenFile(WRONLY|TRUNC)", func(in *seqInst, p string) (avfs.File, error) {
 			return in.v.OpenFile(p, os.O_WRONLY|os.O_TRUNC, 0o644)
 		}, "vfs.OpenFile(%s, os.O_WRONLY|os.O_TRUNC, 0o644)"},
-		{"CreateTemp", func(in *inst, p string) (avfs.File, error) { return in.v.CreateTemp(p, "x") }, `vfs.CreateTemp(%s, "x")`},
+		{"CreateTemp", func(in *seqInst, p string) (avfs.File, error) { return in.v.CreateTemp(p, "x") }, `vfs.CreateTemp(%s, "x")`},
 	}
 
-	var out []*hkind
+	var out []*seqHandleKind
 
 	seen := map[string]bool{}
 
@@ -359,17 +359,19 @@ func errHandleKinds(t *target) []*hkind {
 
 			seen[key] = true
 
-			out = append(out, &hkind{
+			out = append(out, &seqHandleKind{
 				Name: fmt.Sprintf("returned-with-error:%s:%s", c.name, shape), NilPtr: nilp,
-				mk: func(in *inst) avfs.File {
+				mk: func(in *seqInst) avfs.File {
 					f, err := c.call(in, p)
 					if err == nil || f == nil {
-						na("constructor did not fail")
+						notAppl("constructor did not fail")
 					}
 
 					return f
 				},
-				Go: func(*inst) []string { return []string{"f, _ := " + fmt.Sprintf(c.gof, pa.Go) + " // returns an error"} },
+				Go: func(*seqInst) []string {
+					return []string{"f, _ := " + fmt.Sprintf(c.gof, pa.Go) + " // returns an error"}
+				},
 			})
 		}
 	}
@@ -380,14 +382,17 @@ func errHandleKinds(t *target) []*hkind {
 // ---------------------------------------------------------------------------
 // Plan.
 
-type plan struct {
+// seqTier is the tier of the plan built last (case keys are tier-specific).
+var seqTier = "quick"
+
+type seqPlan struct {
 	Tier    string
-	Units   []*unit
+	Units   []*seqUnit
 	Total   int64
-	Targets []*target
+	Targets []*seqTarget
 }
 
-func fileTypeName(t *target) string {
+func fileTypeName(t *seqTarget) string {
 	switch {
 	case t.Name == "MemFS.Sub(/d)":
 		return t.FileType + "(Sub)"
@@ -400,12 +405,12 @@ func fileTypeName(t *target) string {
 
 // methodUnits builds the reflect-driven units of interface it for one
 // (target, state).
-func methodUnits(t *target, st state, sec, typ string, it reflect.Type, hk *hkind, hm *hmut) ([]*unit, error) {
-	var out []*unit
+func methodUnits(t *seqTarget, st seqState, sec, typ string, it reflect.Type, hk *seqHandleKind, hm *seqHandleMut) ([]*seqUnit, error) {
+	var out []*seqUnit
 
 	for i := 0; i < it.NumMethod(); i++ {
 		m := it.Method(i)
-		u := &unit{T: t, St: st, Sec: sec, Type: typ, Method: m.Name, HK: hk, HM: hm, Variad: m.Type.IsVariadic()}
+		u := &seqUnit{T: t, St: st, Sec: sec, Type: typ, Method: m.Name, HK: hk, HM: hm, Variad: m.Type.IsVariadic()}
 
 		dsec := sec
 		if sec == "vfs" && it == tVolMgr {
@@ -440,7 +445,7 @@ func methodUnits(t *target, st state, sec, typ string, it reflect.Type, hk *hkin
 // buildPlan enumerates every unit of the tier. Order: pre-states of depth 0
 // first, then depth 1, then depth 2, so that a budget cut keeps the widest
 // part complete.
-func buildPlan(tier string) (pl *plan, err error) {
+func buildSeqPlan(tier string) (pl *seqPlan, err error) {
 	defer func() {
 		if r := recover(); r != nil {
 			if h, ok := r.(harnessError); ok {
@@ -455,6 +460,7 @@ func buildPlan(tier string) (pl *plan, err error) {
 
 	verifrt.SetSeqRandom(true)
 
+	seqTier = tier
 	thorough := tier == "thorough"
 	depth := 1
 
@@ -462,30 +468,30 @@ func buildPlan(tier string) (pl *plan, err error) {
 		depth = 2
 	}
 
-	var doms []*dom
+	var doms []*seqDom
 
 	doms = append(doms, newDom(false, thorough))
 	if avfs.BuildFeatures()&avfs.FeatSetOSType != 0 {
 		doms = append(doms, newDom(true, thorough))
 	}
 
-	pl = &plan{Tier: tier}
+	pl = &seqPlan{Tier: tier}
 
 	type tu struct {
 		depth int
-		us    []*unit
+		us    []*seqUnit
 	}
 
 	var groups []tu
 
 	for _, d := range doms {
-		for _, t := range targets(d) {
+		for _, t := range seqTargets(d) {
 			pl.Targets = append(pl.Targets, t)
 
 			states := t.states(depth, thorough)
 
 			for _, st := range states {
-				var us []*unit
+				var us []*seqUnit
 
 				switch t.Kind {
 				case "idm":
@@ -531,7 +537,7 @@ func buildPlan(tier string) (pl *plan, err error) {
 					continue
 				}
 
-				var us []*unit
+				var us []*seqUnit
 
 				for _, hk := range kinds {
 					for _, hm := range handleMutators {
@@ -579,7 +585,7 @@ func buildPlan(tier string) (pl *plan, err error) {
 // buildHandle obtains the handle of kind hk on in and applies hm; ok is false
 // when that is not possible in this state (never a verdict: the calls used
 // here are themselves enumerated in the vfs section).
-func buildHandle(in *inst, hk *hkind, hm *hmut) (f avfs.File, ok bool) {
+func buildHandle(in *seqInst, hk *seqHandleKind, hm *seqHandleMut) (f avfs.File, ok bool) {
 	k, _ := fsx.Guard(func() {
 		defer func() {
 			if r := recover(); r != nil {
@@ -610,7 +616,7 @@ func buildHandle(in *inst, hk *hkind, hm *hmut) (f avfs.File, ok bool) {
 }
 
 // unitAt returns the unit holding ordinal k.
-func (pl *plan) unitAt(k int64) *unit {
+func (pl *seqPlan) unitAt(k int64) *seqUnit {
 	i := sort.Search(len(pl.Units), func(i int) bool { return pl.Units[i].Base+pl.Units[i].N > k })
 	if i >= len(pl.Units) {
 		return nil
@@ -622,7 +628,7 @@ func (pl *plan) unitAt(k int64) *unit {
 // ---------------------------------------------------------------------------
 // Execution of one case.
 
-type caseRes struct {
+type seqCaseRes struct {
 	Kind  string // outcome kind: ok / errno / ... / PANIC / DEADLOCK / n/a
 	Msg   string
 	Where string
@@ -727,7 +733,7 @@ func outcomeOf(outs []reflect.Value) string {
 
 // prepare builds the pre-state of a case of u: fresh instance, mutators,
 // receiver.
-func (u *unit) prepare() (in *inst, recv reflect.Value, ok bool) {
+func (u *seqUnit) prepare() (in *seqInst, recv reflect.Value, ok bool) {
 	verifrt.SetSeqRandom(true)
 
 	in = u.T.newInst()
@@ -753,7 +759,7 @@ func (u *unit) prepare() (in *inst, recv reflect.Value, ok bool) {
 }
 
 // runCase executes tuple j of u on a fresh instance.
-func (u *unit) runCase(j int64) (res caseRes) {
+func (u *seqUnit) runCase(j int64) (res seqCaseRes) {
 	in, recv, _ := u.prepare()
 	args := u.tuple(j)
 	vals := make([]any, len(args))
@@ -780,13 +786,13 @@ func (u *unit) runCase(j int64) (res caseRes) {
 	}()
 
 	if naWhy != "" {
-		return caseRes{Kind: "n/a", NA: true, Msg: naWhy}
+		return seqCaseRes{Kind: "n/a", NA: true, Msg: naWhy}
 	}
 
 	kind := ""
 
 	k, msg, where := guardCall(func() {
-		inject(u.Base + j)
+		seqInject(u.Base + j)
 
 		if u.custom != nil {
 			kind = u.custom(in, vals)
@@ -824,26 +830,32 @@ func (u *unit) runCase(j int64) (res caseRes) {
 			panic(harnessError{msg})
 		}
 
-		return caseRes{Kind: k, Msg: msg, Where: where}
+		if where == "" {
+			// no avfs function on the stack: the harness itself (reflection,
+			// argument construction) failed - never a verdict about avfs
+			panic(harnessError{fmt.Sprintf("%s outside avfs code in case %s: %s", k, u.caseKey(j), msg)})
+		}
+
+		return seqCaseRes{Kind: k, Msg: msg, Where: where}
 	}
 
 	if kind == "n/a" {
-		return caseRes{Kind: kind, NA: true}
+		return seqCaseRes{Kind: kind, NA: true}
 	}
 
-	return caseRes{Kind: kind}
+	return seqCaseRes{Kind: kind}
 }
 
 // sanctioned reports the one panic the property allows: File.Name on a nil
 // handle (as in package os).
-func (u *unit) sanctioned(r caseRes) bool {
+func (u *seqUnit) sanctioned(r seqCaseRes) bool {
 	return u.Sec == "file" && u.Method == "Name" && u.HK.NilPtr && r.Kind == "PANIC"
 }
 
 func isViolation(kind string) bool { return kind == "PANIC" || kind == "DEADLOCK" }
 
 // signature of a violating case (argument classes and message class given).
-func (u *unit) signature(argClasses, kind, msgClass, where string) map[string]string {
+func (u *seqUnit) signature(argClasses, kind, msgClass, where string) map[string]string {
 	sig := map[string]string{
 		"part": "seq", "type": u.Type, "os": u.T.OS, "method": u.Method, "args": argClasses,
 		"state": u.stateClass(), "kind": strings.ToLower(kind), "msg": msgClass, "where": where,
@@ -857,7 +869,7 @@ func (u *unit) signature(argClasses, kind, msgClass, where string) map[string]st
 }
 
 // replay object of a case.
-func (u *unit) replay(j int64, args []argv, kind, msg, where string) map[string]any {
+func (u *seqUnit) replay(j int64, args []seqArg, kind, msg, where string) map[string]any {
 	var shown []string
 	for _, a := range args {
 		shown = append(shown, a.Show)
@@ -867,8 +879,15 @@ func (u *unit) replay(j int64, args []argv, kind, msg, where string) map[string]
 		"part": "seq", "type": u.Type, "target": u.T.Name, "os": u.T.OS, "section": u.Sec,
 		"state_built_by": u.St.show(), "method": u.Method, "args": shown,
 		"outcome": kind, "message": msg, "where": where,
-		"case": u.caseKey(j), "binary_has_setostype": avfs.BuildFeatures()&avfs.FeatSetOSType != 0,
+		"case": u.caseKey(j), "tier": seqTier, "binary_has_setostype": avfs.BuildFeatures()&avfs.FeatSetOSType != 0,
 	}
+
+	cmd := fmt.Sprintf("./check C07 %s -seqcase '%s'", seqTier, u.caseKey(j))
+	if u.T.d.win {
+		cmd = "VERIF_TAGS=verif,avfs_setostype " + cmd
+	}
+
+	r["replay_cmd"] = cmd + "   # re-executes this single case in-process (no watchdog) and prints its outcome"
 
 	if u.HK != nil {
 		r["handle"] = u.HK.Name
@@ -883,7 +902,7 @@ func (u *unit) replay(j int64, args []argv, kind, msg, where string) map[string]
 }
 
 // caseKey identifies a case independently of the global numbering.
-func (u *unit) caseKey(j int64) string {
+func (u *seqUnit) caseKey(j int64) string {
 	k := fmt.Sprintf("%s|%s|%s|%s|%s", u.T.OS, u.T.Name, u.Sec, u.St.class(), u.Method)
 	if u.HK != nil {
 		k += "|" + u.HK.Name + "|" + u.HM.Name
@@ -902,7 +921,7 @@ func (u *unit) caseKey(j int64) string {
 // then spins forever, recurses without end or allocates without end inside the
 // guarded call, exactly as a defective library call would. Unset in every
 // registered check.
-func inject(k int64) {
+func seqInject(k int64) {
 	spec := os.Getenv("C07_SEQ_INJECT")
 	if spec == "" {
 		return
@@ -929,7 +948,7 @@ func inject(k int64) {
 				injectSink = x
 			}
 		case "stack":
-			injectSink = recurse(1)
+			injectSink = seqRecurse(1)
 		case "oom":
 			var keep [][]byte
 			for {
@@ -946,10 +965,10 @@ func inject(k int64) {
 var injectSink int
 
 //go:noinline
-func recurse(n int) int {
+func seqRecurse(n int) int {
 	var pad [256]byte
 
 	pad[n%256] = byte(n)
 
-	return recurse(n+1) + int(pad[0])
+	return seqRecurse(n+1) + int(pad[0])
 }
